@@ -927,6 +927,20 @@ func (e *enc) finish() {
 			e.assumptions["definitional axiom "+ax.Label] = true
 		}
 	}
+	if len(e.allocSites) > 8 {
+		// many allocation sites (table initialisers): tell the solver outright that they differ
+		seen := map[string]bool{}
+		var ns []string
+		for _, n := range e.allocSites {
+			if !seen[n] {
+				seen[n] = true
+				ns = append(ns, n)
+			}
+		}
+		if len(ns) > 8 {
+			axioms = append(axioms, "(distinct "+strings.Join(ns, " ")+")")
+		}
+	}
 	if len(axioms) > 0 {
 		// axioms hold from the start: they are visible to every obligation (assumptions are flow ordered)
 		e.asserts = append(append([]string{}, axioms...), e.asserts...)
@@ -1065,7 +1079,10 @@ func (e *enc) callKeyOf(cc *ssa.CallCommon) string {
 	if callee := cc.StaticCallee(); callee != nil {
 		return funcKey(callee)
 	}
-	return ""
+	if _, isBuiltin := cc.Value.(*ssa.Builtin); isBuiltin {
+		return ""
+	}
+	return "dynamic"
 }
 
 var dbgOn = len(dbgEnv) > 0
